@@ -58,25 +58,30 @@ pub struct PublicInput {
 impl PublicInput {
     // Returns the ratio between the product of all public memory cells and z^|public_memory|.
     // This is the value that needs to be at the memory_multi_column_perm_perm_public_memory_prod
-    // member expression.
+    // member expression. Returns None if the public memory does not fit the column or a
+    // denominator is zero.
     pub fn get_public_memory_product_ratio(
         &self,
         z: Felt,
         alpha: Felt,
         public_memory_column_size: Felt,
-    ) -> Felt {
+    ) -> Option<Felt> {
         let (pages_product, total_length) = self.get_public_memory_product(z, alpha);
 
         // Pad and divide
         let numerator = z.pow_felt(&public_memory_column_size);
         let padded = z - (self.padding_addr + alpha * self.padding_value);
 
-        assert!(total_length <= public_memory_column_size);
+        if total_length > public_memory_column_size {
+            return None;
+        }
         let denominator_pad = padded.pow_felt(&(public_memory_column_size - total_length));
 
-        numerator
-            .field_div(&NonZeroFelt::from_felt_unchecked(pages_product))
-            .field_div(&NonZeroFelt::from_felt_unchecked(denominator_pad))
+        Some(
+            numerator
+                .field_div(&NonZeroFelt::try_from(pages_product).ok()?)
+                .field_div(&NonZeroFelt::try_from(denominator_pad).ok()?),
+        )
     }
     // Returns the product of all public memory cells.
     pub fn get_public_memory_product(&self, z: Felt, alpha: Felt) -> (Felt, Felt) {
